@@ -1,8 +1,171 @@
-/- Driver handler owned by property C13: `c13 <args…>` requests. -/
+/- Driver handler owned by property C13: `c13 <args…>` requests.
+
+  c13 run G <n> module*n M <n> module*n
+      G: runtime modules declared before the script (same `declare_modules` shape, parent none)
+      module := ident parent+1(0 = none) nitems item*
+      item   := F name tag block | C name tag | T name tag | I npaths path* | S id kind path
+      block  := nimports path* nstmts stmt*
+      stmt   := L name tag | B block | P id kind(0 fn, 1 const, 2 type) path | A name tag (parameter, head of a function body only)
+      path   := len name*
+    answer  `<base> ; <id>=<res>* ; <dotted>=<tag>* ; <scope dump>*`
+      base  := ok | err:<kind> | panic:<site>      res := ok:<tag> | err:<kind> | panic:<site>
+      scope dump (one token per scope, allocation order):
+        <printed>|<parent printed or ->|<alias>><printed scope>.<ident>,…|<ident>:<kind>,…
+
+  c13 discover V <n> <name>*n <entries>   (names that are not identifier-shaped)
+      entries := n entry*   entry := f stem roto(0/1) | d name entries
+    answer  `none` | `<moduleName>:<child>,<child>… ` per file
+-/
 import Driver.Util
+import RotoV.Model.Scope
 
 namespace Driver.C13
+open RotoV.Scope
 
-def handle (_args : List String) : String := "bad-op"
+abbrev P := StateT (List String) Option
+
+def tok : P String := fun s => match s with | [] => none | t :: r => some (t, r)
+def nat : P Nat := do let t ← tok; (t.toNat? : Option Nat)
+def expect (w : String) : P Unit := do let t ← tok; if t = w then pure () else failure
+
+def rep {α} (p : P α) : Nat → P (List α)
+  | 0 => pure []
+  | n + 1 => do let a ← p; let r ← rep p n; pure (a :: r)
+
+def path : P Path := do let n ← nat; rep nat n
+
+def pkind : P PKind := do
+  match ← nat with
+  | 0 => pure .fn | 1 => pure .const | 2 => pure .ty | _ => failure
+
+mutual
+partial def block : P Block := do
+  let ni ← nat
+  let imps ← rep path ni
+  let ns ← nat
+  let stmts ← repStmt ns
+  pure (.mk imps stmts)
+partial def repStmt : Nat → P (List Stmt)
+  | 0 => pure []
+  | n + 1 => do let a ← stmt; let r ← repStmt n; pure (a :: r)
+partial def stmt : P Stmt := do
+  match ← tok with
+  | "L" => do let x ← nat; let t ← nat; pure (.letv x t)
+  | "B" => do let b ← block; pure (.block b)
+  | "P" => do let id ← nat; let k ← pkind; let p ← path; pure (.probe id k p)
+  | "A" => do let x ← nat; let t ← nat; pure (.param x t)
+  | _ => failure
+end
+
+def item : P Item := do
+  match ← tok with
+  | "F" => do let n ← nat; let t ← nat; let b ← block; pure (.fn n t b)
+  | "C" => do let n ← nat; let t ← nat; pure (.const n t)
+  | "T" => do let n ← nat; let t ← nat; pure (.ty n t)
+  | "I" => do let k ← nat; let ps ← rep path k; pure (.imports ps)
+  | "S" => do let id ← nat; let k ← pkind; let p ← path; pure (.sigProbe id k p)
+  | _ => failure
+
+def module : P Module := do
+  let ident ← nat
+  let pp ← nat
+  let n ← nat
+  let items ← rep item n
+  pure ⟨ident, if pp = 0 then none else some (pp - 1), items⟩
+
+def showErr : Err → String
+  | .notDefined => "notDefined" | .declaredTwice => "declaredTwice" | .tooManySuper => "tooManySuper"
+  | .expectedModule => "expectedModule" | .expectedValue => "expectedValue"
+  | .expectedFunction => "expectedFunction" | .expectedType => "expectedType" | .noField => "noField"
+
+def showSite : Site → String
+  | .fuel => "fuel" | .scopeIndex => "scopeIndex" | .importTarget => "importTarget"
+  | .getDeclaration => "getDeclaration" | .parentNotModule => "parentNotModule"
+  | .superNoScope => "superNoScope" | .emptyPath => "emptyPath" | .moduleOrder => "moduleOrder"
+
+def showRes {α} (f : α → String) : Res α → String
+  | .ok a => "ok" ++ f a
+  | .err e => "err:" ++ showErr e
+  | .panic s => "panic:" ++ showSite s
+
+def showSeg : Seg → String
+  | .id n => toString n
+  | .fnScope n => "f" ++ toString n
+  | .tyScope n => "t" ++ toString n
+  | .block i => "b" ++ toString i
+
+def showSegs (l : List Seg) : String := ".".intercalate (l.map showSeg)
+
+def showScopeOf (g : Graph) (s : Nat) : String :=
+  match printScope g s with
+  | .ok l => if l.isEmpty then "@" else showSegs l
+  | _ => "?"
+
+def showKind : DKind → String
+  | .module => "mod" | .ty t => s!"ty{t}" | .fn t => s!"fn{t}" | .const t => s!"const{t}" | .localv t => s!"local{t}"
+
+def dumpScope (g : Graph) (i : Nat) (sc : Scope) : String :=
+  let par := match sc.parent with | none => "-" | some p => showScopeOf g p
+  let imps := sc.imports.map fun (a, t) => s!"{a}>{showScopeOf g t.scope}.{t.ident}"
+  let decls := (g.decls.filter (fun d => d.name.scope = i)).map fun d => s!"{d.name.ident}:{showKind d.kind}"
+  s!"{showScopeOf g i}|{par}|{",".intercalate imps}|{",".intercalate decls}"
+
+def dumpGraph (g : Graph) : String :=
+  " ".intercalate ((List.range g.scopes.length).zip g.scopes |>.map fun (i, sc) => dumpScope g i sc)
+
+def run : P String := do
+  expect "G"; let ng ← nat; let rts ← rep module ng
+  expect "M"; let nm ← nat; let ms ← rep module nm
+  let g0 : Res Graph := match declareModules rts [] Graph.new with
+    | .ok (g, _) => .ok g
+    | .err e => .err e
+    | .panic s => .panic s
+  match g0 with
+  | .ok g0 =>
+    match checkModuleTree g0 (packageRoot ms) with
+    | .ok out =>
+      let probes := out.probes.map fun (id, r) => s!"{id}={showRes (fun t => ":" ++ toString t) r}"
+      let exports := (exportTable out.g).map fun (l, t) => s!"{showSegs l}={t}"
+      pure s!"ok ; {" ".intercalate probes} ; {" ".intercalate exports} ; {dumpGraph out.g}"
+    | .err e => pure s!"err:{showErr e} ; ; ;"
+    | .panic s => pure s!"panic:{showSite s} ; ; ;"
+  | .err e => pure s!"rt-err:{showErr e} ; ; ;"
+  | .panic s => pure s!"rt-panic:{showSite s} ; ; ;"
+
+mutual
+partial def entries : P (List Entry) := do
+  let n ← nat
+  repEntry n
+partial def repEntry : Nat → P (List Entry)
+  | 0 => pure []
+  | n + 1 => do let a ← entry; let r ← repEntry n; pure (a :: r)
+partial def entry : P Entry := do
+  match ← tok with
+  | "f" => do let s ← nat; let r ← nat; pure (.file s (r = 1))
+  | "d" => do let n ← nat; let es ← entries; pure (.dir n es)
+  | _ => failure
+end
+
+def discover : P String := do
+  -- `V <n> <name>*n`: the names that are *not* identifier-shaped
+  expect "V"; let n ← nat; let bad ← rep nat n
+  let es ← entries
+  match directory (fun x => !bad.contains x) es with
+  | none => pure "none"
+  | some files =>
+    pure (" ".intercalate (files.map fun f =>
+      s!"{f.moduleName}:{",".intercalate (f.children.map toString)}"))
+
+def handle (args : List String) : String :=
+  match args with
+  | "run" :: rest =>
+    match run.run rest with
+    | some (s, []) => s
+    | _ => "bad-op"
+  | "discover" :: rest =>
+    match discover.run rest with
+    | some (s, []) => s
+    | _ => "bad-op"
+  | _ => "bad-op"
 
 end Driver.C13
